@@ -406,6 +406,16 @@ def r1_trace(text, hits):
         done = True
         for s, o, c, name in _macro_calls(text, m, TRACE_MACROS):
             e = c + 1
+            if name in ('eprintln', 'eprint'):
+                # a line of the --summary report whose format string a template registered (//@formatfn) is not diagnostics: it
+                # keeps its arguments as a call fn(&a1, ..) with an assumed contract (what the report shows under that label)
+                args_ = _split_args(text[o + 1:c])
+                lit_ = args_[0].strip() if args_ else ''
+                if lit_ in FORMAT_FNS:
+                    text = _sub(text, s, e, '%s(%s)' % (FORMAT_FNS[lit_], ', '.join('&(' + a.strip() + ')' for a in args_[1:] if a.strip())))
+                    _count(hits, 'R4.eprintln_as_fn:' + FORMAT_FNS[lit_])
+                    done = False
+                    break
             # swallow a trailing ';'
             k = e
             while k < len(text) and text[k] in ' \t':
